@@ -28,6 +28,7 @@ finally:
     sh('git reset -q; git checkout -q -- .; git clean -fdq -- compiler runtime rustdoc')
 out = {'kind': 'refactor', 'property': meta.get('property'), 'origin': 'independent sub-agent given only the property text and a scratch worktree; asked for behaviour-preserving changes',
        'summary': meta.get('summary'), 'why_behaviour_preserving': meta.get('why_behaviour_preserving'), 'ran_by_agent': meta.get('ran'),
-       'check_result': {'applies': applied, 'silent': applied and not alarms, 'alarms': alarms}}
+       'check_result': {'applies': applied, 'silent': applied and not alarms, 'alarms': alarms,
+                        'at_import': {'applies': applied, 'silent': applied and not alarms, 'alarms': alarms}}}
 json.dump(out, open(os.path.join(dst, 'meta.json'), 'w'), indent=1)
 print(name, 'NO-APPLY' if not applied else ('silent' if not alarms else 'ALARM %s' % alarms))
